@@ -37,12 +37,14 @@ CONSTANTS
   Imports,     \* [package -> set of packages it imports] (only module-internal edges matter)
   AsmPkgs,     \* packages with assembly files (asm runs once with -gensymabis, then once per .s file)
   RealAsm,     \* names of the real assembler runs of a package ({"asm2"}; traces: "asm2", "asm3", ...)
-  CfgOf,       \* [Tops -> configuration id]: equal ids share cache keys
+  CfgOf,       \* [Tops -> [package -> id]]: identity of (configuration, source) of the package as that command
+               \* sees it - equal ids share cache entries (traces: the package's GarbleActionID)
   MayFail,     \* BOOLEAN: tool failures and early exits are explored
   DirName,     \* [Tops -> name of the shared temp dir]: os.MkdirTemp gives every invocation a fresh one
   InheritFrom, \* [Tops -> Tops \cup {"none"}]: started (by a test under `garble test`) with that command's GARBLE_SHARED
   ReflectPkgs, \* packages that (transitively) import reflect: only these have GARBLE_CACHE entries
   ObfPkgs,     \* packages selected by GOGARBLE (ToObfuscate)
+  NamedAsmPkgs, \* obfuscated assembly packages that declare struct types: their compile stores a go_asm.h name map
   InitGo,      \* <<pkg, cfg>> pairs already in GOCACHE when the behaviour starts (warm caches)
   InitGk,      \* <<pkg, cfg>> pairs already in GARBLE_CACHE
   ForgetInherited  \* BOOLEAN: toolexecCmd unsets an inherited GARBLE_SHARED (fix of finding F9)
@@ -68,7 +70,7 @@ VARIABLES
 pvars == <<tpc, texit, env, dirs, created, removed, kpc, gocache, gkeys, akeys, named, wrotein, linked>>
 allvars == <<vars, pvars>>
 
-Key(t, p) == <<p, CfgOf[t]>>
+Key(t, p) == <<p, CfgOf[t][p]>>
 KidsOf(t) == {k \in Kids : k[1] = t}
 Live(k) == kpc[k] \in {"started", "computing", "loaded", "wrote", "running"}
 Settled(k) == kpc[k] \in {"none", "done", "failed", "killed"}
@@ -189,14 +191,16 @@ AsmLoaded(k) ==
 (* types stores the go_asm.h name map                                                   *)
 AsmNamesPut(k) ==
   LET t == k[1]  p == k[2] IN
-  /\ kpc[k] = "loaded" /\ k[3] = "compile" /\ p \in AsmPkgs \cap ObfPkgs /\ Key(t, p) \notin akeys
+  /\ kpc[k] = "loaded" /\ k[3] = "compile" /\ p \in NamedAsmPkgs /\ k \notin named
   /\ akeys' = akeys \cup {Key(t, p)}
-  /\ UNCHANGED <<tpc, texit, env, dirs, created, removed, kpc, gocache, gkeys, named, wrotein, linked>> /\ LinkerUnchanged
+  /\ named' = named \cup {k}                       \* (for a compile child: "has stored the map")
+  /\ UNCHANGED <<tpc, texit, env, dirs, created, removed, kpc, gocache, gkeys, wrotein, linked>> /\ LinkerUnchanged
 
 (* writeSourceFile into the shared dir named by GARBLE_SHARED (the parent's own)        *)
 WriteSources(k) ==
   LET t == k[1]  p == k[2] IN
   /\ kpc[k] \in {"loaded", "wrote"}
+  /\ (k[3] = "compile" /\ p \in NamedAsmPkgs => k \in named)      \* the name map is stored before the sources are written
   /\ IF DirName[t] \in dirs
        THEN /\ kpc' = [kpc EXCEPT ![k] = "wrote"]
             /\ wrotein' = [wrotein EXCEPT ![k] = @ \cup {DirName[t]}]
@@ -208,6 +212,7 @@ WriteSources(k) ==
 (* straight to the tool                                                               *)
 ToolRun(k) ==
   /\ kpc[k] \in {"wrote", "loaded"}
+  /\ (k[3] = "compile" /\ k[2] \in NamedAsmPkgs => k \in named)
 
   /\ kpc' = [kpc EXCEPT ![k] = "running"]
   /\ UNCHANGED <<tpc, texit, env, dirs, created, removed, gocache, gkeys, akeys, named, wrotein, linked>> /\ LinkerUnchanged
@@ -280,7 +285,7 @@ PLinkLast == \A lp \in Procs : pc[lp] \notin {"idle", "done"} => LinkReady(lp)
 (* the assembler's second run finds the name map written by the compile                           *)
 PFactsComplete == \A k \in Kids : (k[3] = "compile" /\ k[2] \in ReflectPkgs /\ kpc[k] \in {"loaded", "wrote", "running", "done"})
                                      => \A q \in Facts(k[2]) : Key(k[1], q) \in gkeys
-PAsmNames == \A k \in Kids : (k[3] \in RealAsm /\ kpc[k] \in {"wrote", "running", "done"} /\ Key(k[1], k[2]) \in akeys) => k \in named
+PAsmNames == \A k \in Kids : (k[3] \in RealAsm /\ kpc[k] \in {"wrote", "running", "done"} /\ k[2] \in NamedAsmPkgs) => k \in named
 (* a command reports success only if it linked *)
 POkMeansLinked == \A t \in Tops : (tpc[t] = "cleaned" /\ texit[t] = "ok") => LinksOf(t) \subseteq linked
 (* a link child uses the patched linker only while its own parent's build is alive *)
